@@ -6,7 +6,8 @@ BOUNDARY_BASES = [8, 16, 32, 64, 128, 1, 2, 3, 7, 9, 12, 15, 17, 24, 31, 33, 48,
 
 
 class Gen:
-    def __init__(self, seed, tier):
+    def __init__(self, seed, tier, consts=()):
+        self.consts = consts
         self.rng = random.Random(seed)
         self.rng_order = random.Random('argument-order|%s' % seed)
         self.tier = tier
@@ -890,6 +891,54 @@ class Gen:
                 self.add({'kind': 'bitfield', 'name': self.name('S'), 'base': W, 'fields': fields, 'light': True}, 'F1p', 'accept',
                          ['every-position', '%s%d' % (kind, n), 'W=%d' % W])
 
+    def fam_constants(self, consts):
+        """declarations built around every integer literal that occurs in the macro's own source (read on this run): a
+        special case keyed on a particular width, position, count or stride puts that number into the source, and with it
+        into the corpus"""
+        F = self.field
+        u = lambda n: {'k': 'u', 'n': n}
+        vals = sorted(set(c for k in consts for c in (k, k + 1) if 1 <= c <= 128))
+        for c in vals:
+            fields = [F('w', u(c), [('r', 0, c - 1)] if c > 1 else [('s', 0)]),
+                      F('t', u(c), [('r', 128 - c, 127)] if c > 1 else [('s', 127)])]
+            if c <= 127:
+                fields.append(F('p', {'k': 'bool'}, [('s', c)]))
+            if c + 8 <= 128:
+                fields.append(F('q', u(8), [('r', c, c + 7)]))
+                fields.append(F('qi', {'k': 'i', 'n': 8}, [('r', c, c + 7)]))
+            if 2 <= c and c + 2 <= 128:
+                fields.append(F('l', u(4), [('r', 0, 1), ('r', c, c + 1)], lst=True))
+                fields.append(F('lr', u(4), [('r', c, c + 1), ('r', 0, 1)], lst=True))
+                fields.append(F('s', u(2), [('r', 0, 1)], count=2, stride=c))
+                fields.append(F('sl', u(2), [('s', 0), ('s', c)], count=2, stride=1 if c > 2 else 4, lst=True))
+            if 2 <= c:
+                fields.append(F('a', {'k': 'bool'}, [('s', 0)], count=c))
+                if 2 * c <= 128:
+                    fields.append(F('a2', u(2), [('r', 0, 1)], count=c))
+            if c <= 64:
+                fields.append(F('e', self.custom_enum(c), [('r', 0, c - 1)] if c > 1 else [('s', 0)]))
+            if c in NATIVE:
+                fields.append(F('i', {'k': 'i', 'n': c}, [('r', 128 - c, 127)]))
+            self.add({'kind': 'bitfield', 'name': self.name('S'), 'base': 128, 'fields': fields, 'light': True}, 'F9', 'accept',
+                     ['source-constant', 'c=%d' % c])
+            # the constant as a base width, with the constant as default, and one field up to the top bit
+            fields = [F('all', u(c), [('r', 0, c - 1)] if c > 1 else [('s', 0)]), F('top', {'k': 'bool'}, [('s', c - 1)])]
+            self.add({'kind': 'bitfield', 'name': self.name('S'), 'base': c, 'fields': fields, 'light': True, 'debug': True,
+                      'default': {'form': 'lit', 'value': c % (1 << c)}}, 'F9', 'accept', ['source-constant-base', 'c=%d' % c])
+            # one bit too many for the base: must be rejected
+            if c <= 127:
+                self.add({'kind': 'bitfield', 'name': self.name('S'), 'base': c,
+                          'fields': [F('over', u(c + 1) if c + 1 != 1 else u(2), [('r', 0, c)])]}, 'F9', 'reject',
+                         ['source-constant-over', 'c=%d' % c])
+        for c in sorted(set(c for k in consts for c in (k, k + 1) if 1 <= c <= 64)):
+            self.enum_decl(c, False, nvariants=2, family='F9')
+        for c in sorted(set(c for k in consts for c in (k, k + 1) if 2 <= c <= 200)):
+            # an enum with exactly c variants over the smallest width that holds them, and over one bit more
+            n = max(1, (c - 1).bit_length())
+            vs = [{'name': 'V%d' % i, 'discr': i} for i in range(c)]
+            self.add({'kind': 'enum', 'name': self.name('E'), 'bits': n, 'exh': 'true' if c == (1 << n) else 'false', 'variants': vs},
+                     'F9', 'accept', ['source-constant-variants', 'c=%d' % c])
+
     def fam_exhaustive(self):
         """thorough tier: ALL 128 base widths (full-width field + top-bit bool, defaults in rotation), and ALL contiguous
         layouts (lo, hi) on 8- and 16-bit storage"""
@@ -944,8 +993,9 @@ class Gen:
         self.perturbed_bitfields(150 if q else 900)
         self.perturbed_enums(80 if q else 400)
         self.exhaustive_small_slice()
+        self.fam_constants(self.consts)
         return self.decls
 
 
-def generate(seed, tier):
-    return Gen(seed, tier).generate()
+def generate(seed, tier, consts=()):
+    return Gen(seed, tier, consts).generate()
